@@ -39,15 +39,21 @@ type (
 		waiting     bool
 		closing     bool
 		inbound     []byte
+		onClosed    func(cc *clientCxn) // called once when the connection has terminated
 	}
 )
 
 func newClientCxn(l lane.Lane, cxn net.Conn, dispatcher *cmdDispatcher) *clientCxn {
+	return newClientCxnTracked(l, cxn, dispatcher, nil)
+}
+
+func newClientCxnTracked(l lane.Lane, cxn net.Conn, dispatcher *cmdDispatcher, onClosed func(cc *clientCxn)) *clientCxn {
 	cc := &clientCxn{
 		cxn:         cxn,
 		started:     time.Now(),
 		socketState: csNone,
 		csceCh:      make(chan *clientStateEvent, 3),
+		onClosed:    onClosed,
 	}
 
 	cc.cs = newClientState(l, cc, dispatcher)
@@ -167,6 +173,9 @@ func (cc *clientCxn) run() {
 func (cc *clientCxn) onTerminate() {
 	cc.cxn.Close()
 	cc.cs.unregister()
+	if cc.onClosed != nil {
+		cc.onClosed(cc)
+	}
 }
 
 func (cc *clientCxn) onInitialize() {
